@@ -209,8 +209,8 @@ fn source_consts() -> Option<String> {
 fn script_consistent(c: &UdpCase) -> bool {
     for (t, sc) in c.scripts.iter().enumerate() {
         for (j, e) in sc.iter().enumerate() {
-            if let Ev::D { parses, resp, id, qs, raw, .. } = e {
-                if raw.is_none() && !*parses {
+            if let Ev::D { parses, resp, id, qs, raw, hdr, .. } = e {
+                if raw.is_none() && !*parses && hdr.is_none() {
                     return false;
                 }
                 let bytes = udp::dgram_bytes(t, j, e).unwrap().0;
@@ -384,6 +384,9 @@ fn exec_udp(line: &str, t: &[&str], rec: &mut Recorder) {
     }
     for (sc, n) in c.scripts.iter().zip(&run.consumed) {
         for e in sc.iter().take(*n) {
+            if let Ev::D { hdr: Some(h), .. } = e {
+                rec.stat(&format!("udp.examined.header.TC={} opcode={} rcode={}", (h >> 9) & 1, (h >> 11) & 15, h & 15));
+            }
             rec.stat(&format!("udp.examined.{}", udp::mismatch(&c, e).unwrap_or("matching").replace(' ', "-")));
         }
     }
@@ -564,9 +567,28 @@ fn gen_event(r: &mut Rng, c: &UdpCase, kind: &str, delay: u64) -> Ev {
     }
     if let Some(bytes) = &raw {
         let (p, rr, i, q) = udp::abstract_bytes(bytes);
-        return Ev::D { delay, src, parses: p, resp: rr, id: i, qs: q, raw };
+        return Ev::D { delay, src, parses: p, resp: rr, id: i, qs: q, raw, hdr: None };
     }
-    Ev::D { delay, src, parses: true, resp, id, qs, raw: None }
+    // header bits of every descriptor-built datagram are varied: the loop must not look at them
+    // (QR aside).  The descriptor is what the real parser makes of the bytes (an odd opcode may not parse).
+    if r.chance(1, 2) {
+        let opcode: u16 = *r.pick(&[0u16, 0, 0, 0, 1, 2, 4, 5, 3, 9]);
+        let rcode: u16 = *r.pick(&[0u16, 0, 0, 1, 2, 3, 5, 9, 15]);
+        let mut h = (opcode << 11) | rcode | (r.next() as u16 & 0x07b0);
+        if r.chance(1, 2) {
+            h |= 0x0200; // TC
+        }
+        if resp {
+            h |= 0x8000;
+        }
+        let bytes = udp::encode_dgram_hdr(id, resp, &qs, 1, Some(h));
+        let (p, rr, i, q) = udp::abstract_bytes(&bytes);
+        if p {
+            return Ev::D { delay, src, parses: true, resp: rr, id: i, qs: q, raw: None, hdr: Some(h) };
+        }
+        return Ev::D { delay, src, parses: false, resp: false, id: 0, qs: vec![], raw: None, hdr: Some(h) };
+    }
+    Ev::D { delay, src, parses: true, resp, id, qs, raw: None, hdr: None }
 }
 
 fn gen_udp(r: &mut Rng) -> UdpCase {
@@ -906,7 +928,7 @@ fn udp_enumerate(ctx: &mut Ctx, rec: &mut Recorder, len: usize) {
     let q2 = Q { labels: vec![b"SeConD".to_vec(), b"oRg".to_vec()], qtype: 28, qclass: 1 };
     let q2l = Q { labels: vec![b"second".to_vec(), b"org".to_vec()], qtype: 28, qclass: 1 };
     let q3 = Q { labels: vec![b"tHiRd".to_vec()], qtype: 16, qclass: 1 };
-    let d = |src: SocketAddr, id: u16, resp: bool, qs: Vec<Q>| Ev::D { delay: 0, src, parses: true, resp, id, qs, raw: None };
+    let d = |src: SocketAddr, id: u16, resp: bool, qs: Vec<Q>| Ev::D { delay: 0, src, parses: true, resp, id, qs, raw: None, hdr: None };
     let mapped = SocketAddr::new(IpAddr::V6(Ipv4Addr::new(192, 168, 1, 1).to_ipv6_mapped()), 53);
     let wrong_ip: SocketAddr = "192.168.1.2:53".parse().unwrap();
     let wrong_port: SocketAddr = "192.168.1.1:54".parse().unwrap();
@@ -919,7 +941,7 @@ fn udp_enumerate(ctx: &mut Ctx, rec: &mut Recorder, len: usize) {
         d(server, 4660, true, vec![other.clone()]),
         d(server, 4660, true, vec![q.clone(), other.clone()]),
         d(server, 4660, true, vec![ql.clone()]),
-        Ev::D { delay: 0, src: server, parses: false, resp: false, id: 0, qs: vec![], raw: Some(vec![0]) },
+        Ev::D { delay: 0, src: server, parses: false, resp: false, id: 0, qs: vec![], raw: Some(vec![0]), hdr: None },
         d(server, 4660, false, vec![q.clone()]),
         Ev::E { delay: 0 },
     ];
@@ -939,6 +961,45 @@ fn udp_enumerate(ctx: &mut Ctx, rec: &mut Recorder, len: usize) {
         scripts: vec![sc],
         setups: vec![],
     };
+    // header bits: every foreign-question / case-flipped / no-question reply from the queried address with
+    // the right id, with TC and other flag sets, rcodes and opcodes, ahead of the genuine reply
+    {
+        let qt = Q { labels: q.labels.clone(), qtype: 28, qclass: 1 };
+        let qc = Q { labels: q.labels.clone(), qtype: 1, qclass: 3 };
+        let sections: Vec<Vec<Q>> = vec![
+            vec![other.clone()],
+            vec![qt],
+            vec![qc],
+            vec![ql.clone()],
+            vec![q.clone(), other.clone()],
+            vec![],
+            vec![q.clone()],
+        ];
+        // TC; AA|RA; AD|CD; NXDOMAIN; SERVFAIL|TC; opcode UPDATE; opcode NOTIFY|AA; TC|AA|RA|AD|CD|REFUSED; plain
+        let flag_sets: [u16; 9] = [0x8380, 0x8580, 0x81b0, 0x8183, 0x8382, 0xa980, 0xa500, 0x87b5, 0x8180];
+        for ctor in ['n', 'f'] {
+            for case_rand in [false, true] {
+                for sec in &sections {
+                    for h in flag_sets {
+                        for (wrong_id, wrong_src) in [(false, false), (true, false), (false, true)] {
+                            let forged = Ev::D {
+                                delay: 0,
+                                src: if wrong_src { wrong_port } else { server },
+                                parses: true,
+                                resp: true,
+                                id: if wrong_id { 4661 } else { 4660 },
+                                qs: sec.clone(),
+                                raw: None,
+                                hdr: Some(h),
+                            };
+                            let genuine = Ev::D { delay: 1, src: server, parses: true, resp: true, id: 4660, qs: vec![q.clone()], raw: None, hdr: Some(h ^ 0x0200) };
+                            exec(ctx, &udp::case_line(&base(case_rand, ctor, vec![q.clone()], vec![forged, genuine])), rec);
+                        }
+                    }
+                }
+            }
+        }
+    }
     // the other entry point (exchange() + DnsHandle::send): all sequences of length <= 2
     for ctor in ['n', 'f'] {
         for case_rand in [false, true] {
